@@ -295,6 +295,105 @@ pub fn configs(n_links: usize, tag: &str) -> Vec<Config> {
     out
 }
 
+thread_local! {
+    /// Set in worker processes whose cwd is private to the configuration: inspections leave
+    /// `<name>.link` files (and whatever their commands create) in the cwd, which is part of the
+    /// inputs, so it is emptied before every execution.
+    static CLEAN_CWD: std::cell::Cell<bool> = const { std::cell::Cell::new(false) };
+}
+
+fn clean_cwd() {
+    if let Ok(rd) = std::fs::read_dir(".") {
+        for e in rd.flatten() {
+            let p = e.path();
+            if p.is_dir() {
+                let _ = std::fs::remove_dir_all(&p);
+            } else {
+                let _ = std::fs::remove_file(&p);
+            }
+        }
+    }
+}
+
+/// Configurations whose verdict involves the working directory: inspections inside co-delegated
+/// sub-layouts (their order is the iteration order at sites B / B2) and top-level inspections.
+/// `root` holds the link directories; the process cwd is a separate, private, initially empty one.
+pub fn cwd_configs(root: &std::path::Path) -> Vec<Config> {
+    use in_toto::models::inspection::Inspection;
+    use in_toto::models::rule::ArtifactRule;
+    let owner = keys::get("ed6");
+    let (a, b) = (keys::get("ed1"), keys::get("ed2"));
+    let mut out = vec![];
+    let quiet = |n: &str| Inspection::new(n).run(vec!["true".to_string()].into());
+    let strict = |n: &str| Inspection::new(n).run(vec!["true".to_string()].into()).add_expected_material(ArtifactRule::Disallow(world::vpath("*")));
+    let sub = |insp: Inspection, k: &Key| world::sign_layout(world::layout(vec![], vec![insp], &[], world::far_future()), &[k]);
+    // (x) one step, two functionaries, each delegating to an own sub-layout with one inspection
+    for (name, ia, ib) in [("x:one-step:quiet+strict", quiet("ia"), strict("ib")), ("x:one-step:strict+quiet", strict("ia"), quiet("ib")), ("x:one-step:strict+strict", strict("ia"), strict("ib")), ("x:one-step:quiet+quiet", quiet("ia"), quiet("ib"))] {
+        let dir = root.join(name.replace(':', "_"));
+        std::fs::create_dir_all(&dir).unwrap();
+        let lay = world::layout(vec![world::step("s", 1, &[a, b])], vec![], &[a, b], world::far_future());
+        write_link(&dir, "s", a, &sub(ia, a));
+        write_link(&dir, "s", b, &sub(ib, b));
+        for k in [a, b] {
+            std::fs::create_dir_all(dir.join(format!("s.{}", k.prefix()))).unwrap();
+        }
+        out.push(Config { name: name.into(), layout: world::sign_layout(lay, &[owner]), owners: world::owner_map(&[owner]), dir, ambiguous: true });
+    }
+    // (xi) two delegated steps, one functionary each
+    for (name, ia, ib) in [("xi:two-steps:quiet+strict", quiet("ia"), strict("ib")), ("xi:two-steps:strict+quiet", strict("ia"), quiet("ib"))] {
+        let dir = root.join(name.replace(':', "_"));
+        std::fs::create_dir_all(&dir).unwrap();
+        let lay = world::layout(vec![world::step("s1", 1, &[a]), world::step("s2", 1, &[b])], vec![], &[a, b], world::far_future());
+        write_link(&dir, "s1", a, &sub(ia, a));
+        write_link(&dir, "s2", b, &sub(ib, b));
+        std::fs::create_dir_all(dir.join(format!("s1.{}", a.prefix()))).unwrap();
+        std::fs::create_dir_all(dir.join(format!("s2.{}", b.prefix()))).unwrap();
+        out.push(Config { name: name.into(), layout: world::sign_layout(lay, &[owner]), owners: world::owner_map(&[owner]), dir, ambiguous: true });
+    }
+    // (xii) two top-level inspections whose results depend on which runs first (layout order is the
+    // specified order; this configuration is for the repetition supplement)
+    {
+        let dir = root.join("xii");
+        std::fs::create_dir_all(&dir).unwrap();
+        let i1 = Inspection::new("i1").run(vec!["sh".to_string(), "-c".to_string(), "touch made-by-i1".to_string()].into());
+        let i2 = Inspection::new("i2").run(vec!["true".to_string()].into()).add_expected_material(ArtifactRule::Disallow(world::vpath("made-by-i1")));
+        for (name, insp) in [("xii:inspections:creator-first", vec![i1.clone(), i2.clone()]), ("xii:inspections:creator-last", vec![i2, i1])] {
+            let lay = world::layout(vec![], insp, &[], world::far_future());
+            out.push(Config { name: name.into(), layout: world::sign_layout(lay, &[owner]), owners: world::owner_map(&[owner]), dir: dir.clone(), ambiguous: false });
+        }
+    }
+    out
+}
+
+/// Worker entry: one cwd-dependent configuration, explored in a private cwd.
+pub fn worker_case(case: &Value, dir: &std::path::Path) -> Value {
+    let links = dir.join("links");
+    let cwd = dir.join("cwd");
+    std::fs::create_dir_all(&links).unwrap();
+    std::fs::create_dir_all(&cwd).unwrap();
+    let cfgs = cwd_configs(&links);
+    let idx = case["config"].as_u64().unwrap_or(0) as usize;
+    let Some(cfg) = cfgs.get(idx) else { return json!({"machinery_error": "no such configuration"}) };
+    std::env::set_current_dir(&cwd).unwrap();
+    CLEAN_CWD.with(|c| c.set(true));
+    REPETITIONS.store(case["repetitions"].as_u64().unwrap_or(12) as usize, std::sync::atomic::Ordering::Relaxed);
+    let mut acc = Acc::new();
+    let (outs, stats) = run_config(cfg, 99, 20_000, &mut acc);
+    CLEAN_CWD.with(|c| c.set(false));
+    let _ = std::env::set_current_dir("/");
+    json!({
+        "config": cfg.name,
+        "executions": stats.executions,
+        "evaluations": acc.evaluations,
+        "accepting": acc.accepting,
+        "distinct_outcomes": outs.len(),
+        "violations": acc.violations.values().map(|v| json!({"key": v.key, "what": v.what, "witness": v.witness, "count": v.count})).collect::<Vec<_>>(),
+    })
+}
+
+/// Repetitions of the default schedule per configuration (supplement; see `run_config`).
+pub static REPETITIONS: std::sync::atomic::AtomicUsize = std::sync::atomic::AtomicUsize::new(12);
+
 pub fn run_config(
     cfg: &Config,
     bound: usize,
@@ -308,6 +407,9 @@ pub fn run_config(
             script: script.to_vec(),
             ..Driver::default()
         };
+        if CLEAN_CWD.with(|c| c.get()) {
+            clean_cwd();
+        }
         let (v, d) = world::verify_with(&cfg.layout, cfg.owners.clone(), &cfg.dir, drv);
         (v, d.trace, d.diverged)
     };
@@ -340,10 +442,15 @@ pub fn run_config(
                 let again_child = run(script).0;
                 let again_parent = run(&parent_script).0;
                 if obs_of(&again_child) != obs_of(obs) || obs_of(&again_parent) != obs_of(pobs) {
-                    util::machinery_error(&format!(
-                        "C13: schedule {:?} of {} does not reproduce its observation",
-                        script, cfg.name
-                    ));
+                    // the same inputs under the same owned iteration orders gave two outcomes: the
+                    // verdict depends on something the inputs do not determine (an iteration order
+                    // without a choice point, state left by an earlier call, ...)
+                    local.violation(
+                        "nondeterministic:same-schedule-two-outcomes",
+                        "repeating verification with the same inputs and the same iteration order at every choice point gives a different outcome",
+                        || json!({"config": cfg.name, "schedule": script, "outcome_first": obs.to_json(), "outcome_again": again_child.to_json(), "parent_first": pobs.to_json(), "parent_again": again_parent.to_json()}),
+                    );
+                    return;
                 }
                 local.violation(
                     &format!("order-dependent:site-{}", cp.site),
@@ -366,18 +473,24 @@ pub fn run_config(
             }
         }
     });
-    if cfg!(in_toto_verif_nosites) {
-        // degraded run: the iteration orders are not owned; fall back to repetition (every
-        // call builds fresh hash maps with fresh seeds) - sampling, labelled as such
+    {
+        // Supplement (sampling, labelled so): repeat the default schedule. Every call builds fresh
+        // hash maps with fresh seeds, so an iteration order that has no choice point, or state kept
+        // between calls, shows as two outcomes. In a degraded run (call-site hooks off) this is all
+        // there is, hence more repetitions.
         let mut seen: BTreeSet<String> = BTreeSet::new();
         let mut firstv: Option<Verdict> = None;
-        for _ in 0..96 {
+        let reps = if cfg!(in_toto_verif_nosites) { 96 } else { REPETITIONS.load(std::sync::atomic::Ordering::Relaxed) };
+        for _ in 0..reps {
+            if CLEAN_CWD.with(|c| c.get()) {
+                clean_cwd();
+            }
             let (v, _) = world::verify_with(&cfg.layout, cfg.owners.clone(), &cfg.dir, world::default_driver());
             local.evaluations += 1;
             if seen.insert(obs_of(&v)) && seen.len() == 2 {
                 local.violation(
                     "order-dependent:unowned-iteration-order(sampled)",
-                    "repeating verification on the same inputs gives different outcomes (degraded run without call-site hooks; sampled)",
+                    "repeating verification on the same inputs and the same owned iteration orders gives different outcomes (found by repetition)",
                     || json!({"config": cfg.name, "outcome_a": firstv.as_ref().map(|f| f.to_json()), "outcome_b": v.to_json()}),
                 );
             }
@@ -481,6 +594,7 @@ fn site_lint() -> (Vec<String>, usize) {
 pub fn run(tier: Tier) -> i32 {
     let mut c = Check::new("C13", "model_checking", tier);
     let (bound2, bound3, cap) = if tier.thorough() { (99, 4, 2_000_000u64) } else { (99, 3, 60_000u64) };
+    REPETITIONS.store(if tier.thorough() { 48 } else { 12 }, std::sync::atomic::Ordering::Relaxed);
     let mut acc = Acc::new();
     let mut per_config = BTreeMap::new();
     let mut capped = vec![];
@@ -508,6 +622,38 @@ pub fn run(tier: Tier) -> i32 {
                 name,
                 json!({"distinct_outcomes": n_out, "schedules": execs, "max_choice_points": pts, "deviation_bound": if bound > 50 { json!("unbounded") } else { json!(bound) }}),
             );
+        }
+    }
+    // ---- configurations that involve the working directory (worker processes, private cwd)
+    {
+        let n_cwd = cwd_configs(&util::fresh_dir("c13-cwd-count")).len();
+        let cases: Vec<Value> = (0..n_cwd).map(|i| json!({"config": i, "repetitions": if tier.thorough() { 48 } else { 12 }})).collect();
+        let results = crate::worker::run_cases("c13", &cases, if tier.thorough() { 900 } else { 240 });
+        for (case, r) in cases.iter().zip(&results) {
+            match r {
+                crate::worker::WorkerResult::Done(out) => {
+                    if let Some(e) = out.get("machinery_error") {
+                        util::machinery_error(&format!("C13 worker: {e}"));
+                    }
+                    acc.states += 1;
+                    acc.nontrivial += 1;
+                    let ex = out["executions"].as_u64().unwrap_or(0);
+                    acc.evaluations += out["evaluations"].as_u64().unwrap_or(0);
+                    acc.traces += ex;
+                    acc.transitions += ex;
+                    acc.accepting += out["accepting"].as_u64().unwrap_or(0);
+                    per_config.insert(out["config"].as_str().unwrap_or("?").to_string(), json!({"distinct_outcomes": out["distinct_outcomes"], "schedules": ex, "private_cwd": true}));
+                    for v in out["violations"].as_array().cloned().unwrap_or_default() {
+                        let key = v["key"].as_str().unwrap_or("other").to_string();
+                        let what = v["what"].as_str().unwrap_or("").to_string();
+                        let mut w = v["witness"].clone();
+                        w["private_cwd"] = json!(true);
+                        acc.violation(&key, &what, || w);
+                    }
+                }
+                crate::worker::WorkerResult::Died(s) => util::machinery_error(&format!("C13 worker died ({s}) on {case}")),
+                crate::worker::WorkerResult::NotRun => util::machinery_error("C13 cwd configuration not run"),
+            }
         }
     }
     // ---- hooks-off legs -------------------------------------------------
@@ -549,7 +695,7 @@ pub fn run(tier: Tier) -> i32 {
         "2-element sites: all permutation vectors; 3-element sites: at most {bound3} non-default permutations per schedule"
     );
     c.assume("nondeterminism outside the hooked sites: none in the verdict path (see unhooked_iteration_sites)");
-    c.assume("inspections are not part of these configurations (their determinism is the command's)");
+    c.assume("inspection commands themselves are deterministic (`true`, `touch`); the working directory is part of the inputs and is emptied before every execution of the configurations that have inspections");
     c.finish()
 }
 
@@ -562,6 +708,16 @@ pub fn replay(case: &Value) -> Value {
                 found = Some(cfg);
             }
         }
+    }
+    if found.is_none() && case["private_cwd"] == true {
+        // cwd-dependent configuration: re-run it in a worker
+        let n = cwd_configs(&util::fresh_dir("c13-cwd-count")).iter().position(|c| c.name == name);
+        let Some(i) = n else { return json!({"error": "unknown configuration", "violation": null}) };
+        let r = crate::worker::run_cases("c13", &[json!({"config": i, "repetitions": 24})], 240);
+        return match &r[0] {
+            crate::worker::WorkerResult::Done(out) => json!({"worker": out, "violation": out["violations"].as_array().and_then(|a| a.first()).map(|v| v["key"].clone())}),
+            _ => json!({"error": "worker died", "violation": null}),
+        };
     }
     let Some(cfg) = found else {
         return json!({"error": "unknown configuration", "violation": null});
